@@ -37,7 +37,14 @@ def run_one(prop: str, tier: str, repo_root: str, seed: int, evidence_dir: str) 
                 mod.run_thorough(ctx)
                 from .selftest.equiv import run_equivalences
                 run_equivalences(ctx)
-        return finish(ctx, mod.FLOOR, mod.EXPLANATION, mod.RULE, os.path.join(evidence_dir, f"{prop}.json"))
+        # what was decided: the claim text kept next to the MANIFEST (one source for both), followed by the module's own summary
+        try:
+            from .claims import CLAIMS
+            claim = CLAIMS.get(prop, {}).get("text")
+        except Exception:
+            claim = None
+        explanation = (claim + " || engine summary: " + mod.EXPLANATION) if claim else mod.EXPLANATION
+        return finish(ctx, mod.FLOOR, explanation, mod.RULE, os.path.join(evidence_dir, f"{prop}.json"))
     except AnalysisError as e:
         print(f"ANALYSIS-ERROR property={prop} {e}")
         return 2
